@@ -2,9 +2,10 @@
    extracted inductive types; no Extract Constant. *)
 From Coq Require Import ExtrOcamlBasic.
 From Coq Require Extraction.
-From I18n Require Import Lib.Outcome Model.IntExpr Model.PluralForms Model.Tags Generated.UcdPrintable.
+From I18n Require Import Lib.Outcome Model.IntExpr Model.PluralForms Model.Tags Generated.UcdPrintable Model.MsgFormat.
 Extraction Language OCaml.
 Extraction "model.ml"
   IntExpr.parse_string IntExpr.pyeval IntExpr.codomain IntExpr.period
   PluralForms.parse_plural_forms PluralForms.check_plurals_core
-  Tags.escape Tags.format_line Tags.priority Tags.in_ranges UcdPrintable.printable_ranges.
+  Tags.escape Tags.format_line Tags.priority Tags.in_ranges UcdPrintable.printable_ranges
+  MsgFormat.c_check_args MsgFormat.py_check_args MsgFormat.map_check_args MsgFormat.perl_check_args MsgFormat.plan_message.
